@@ -139,7 +139,8 @@ FileNames == <<"a", "b">>
 DeclNames == <<  <<Name(<<"apple">>, "upper"), Name(<<"avocado">>, "upper"), Name(<<"almond">>, "upper"), Name(<<"apricot">>, "upper")>>,
                  <<Name(<<"banana">>, "upper"), Name(<<"berry">>, "upper"), Name(<<"beet">>, "upper"), Name(<<"basil">>, "upper")>> >>
 \* field names by position mix the spellings so that every program exercises the casing functions
-FieldNames == << Name(<<"alpha", "one">>, "camel"), Name(<<"beta", "two">>, "snake"), Name(<<"gamma">>, "camel"), Name(<<"delta", "id">>, "camel") >>
+\* (deliberately NOT in alphabetical order: numbering by sorted name must differ from numbering by position)
+FieldNames == << Name(<<"gamma", "one">>, "camel"), Name(<<"beta", "two">>, "snake"), Name(<<"alpha">>, "camel"), Name(<<"delta", "id">>, "camel") >>
 OptionNames == << "FIRST", "SECOND", "THIRD", "FOURTH" >>
 \* <Method>Request / <Method>Response and <Name>Message types of all services / topics of a package share one sub-package
 \* (TLC found the collision with fixed method names: NumbersContiguous failed for two topics with a message of the
@@ -278,7 +279,8 @@ TopNames(pk, kinds) == { fd[2].name.src : fd \in { x \in TopDecls(pk) : x[2].kin
 \*  package import by last-but-one segment, by full name, by alias; file-path import resolves by full package name)
 \* Same-package references across files are only generated from a file to a LATER file: two files of one package that
 \* refer to each other are valid j5s but become mutually importing .proto files, on which the real linker recurses until the
-\* stack overflows (found by simulation; reported for C07) - a fatal crash per program is too expensive to keep in the space.
+\* stack overflowed (found by simulation; reported for C07; since /repo 9f324d6 it is a "circular import" error) - such programs
+\* cannot be compiled, so they are kept out of the space.
 FilePos(fname) == IF fname = FileNames[1] THEN 1 ELSE IF fname = FileNames[2] THEN 2 ELSE 3
 \* the files of the own package that file fname (a proto file) imports
 ImportedBy(pk, fname) == UNION { IF pk.files[f].name = fname /\ pk.files[f].kind = "proto"
